@@ -262,6 +262,16 @@ class C16(Check):
 
     def run(self, task):
         res = Result()
+        try:
+            return self._run(task, res)
+        except InputMutated as e:
+            res.evals += 1
+            res.violation(self.id, "input-mutated", {"task": repr(task)[:300], "config": "object", "conds_f": task[1], "sig": scopes.SIG2 if task[0] == "obj2" else scopes.SIG3,
+                          "facts_f": [], "extended": None}, "the caller's belief base is left as it was", str(e))
+            res.digest = str(e)
+            return res
+
+    def _run(self, task, res):
         kind = task[0]
         if kind == "obj2":
             _k, conds, idx = task
